@@ -98,8 +98,16 @@ func NewCtx(prop, tier string, seed int64, shard, nshards int) *Ctx {
 		P: Part{KFHits: map[string]int64{}, KFExamples: map[string]string{}, Counters: map[string]int64{}, Outcomes: map[string]int64{}}}
 }
 
-func (c *Ctx) Quick() bool    { return c.Tier != "thorough" }
-func (c *Ctx) Thorough() bool { return c.Tier == "thorough" }
+// PromotedQuick lists the properties whose thorough bounds are cheap enough (under about half a minute on
+// 16 cores) to be the bounds of the quick tier as well: for them Thorough() is true in both tiers and the
+// thorough tier adds the Deep() extensions only (DESIGN 9.11).
+var PromotedQuick = map[string]bool{"C03": true, "C04": true, "C05": true, "C10": true, "C12": true, "C14": true, "C16": true, "C17": true, "C18": true}
+
+func (c *Ctx) Quick() bool    { return !c.Thorough() }
+func (c *Ctx) Thorough() bool { return c.Tier == "thorough" || PromotedQuick[c.Prop] }
+
+// Deep is true in the thorough tier only, for every property.
+func (c *Ctx) Deep() bool { return c.Tier == "thorough" }
 
 func hash64(s string) uint64 {
 	h := fnv.New64a()
